@@ -495,6 +495,14 @@ def spaces(tier, seed):
         plan.append(("core-depth3", init, "core", 3))
         plan.append(("mini-depth4", init, "mini", 4))
         plan.append(("mini-depth3-picked", PICKED, "mini", 3))
+    # every numbering that is well-formed but NOT parents-first (what a file read without sorting, or a re-rooting without sorting, gives)
+    unsorted4 = [p for p in S.labelled_trees(4) if not ref.is_sorted(p)]
+    unsorted5 = [p for p in S.labelled_trees(5) if not ref.is_sorted(p)]
+    if tier == "quick":
+        plan.append(("unsorted-depth1", unsorted4 + unsorted5, "full", 1))
+    else:
+        plan.append(("unsorted-depth1", unsorted5 + [p for p in S.labelled_trees(6) if not ref.is_sorted(p)], "full", 1))
+        plan.append(("unsorted-depth2", unsorted4, "full", 2))
     out = []
     for name, trees, menu, depth in plan:
 
